@@ -42,10 +42,13 @@ let parse_fexpr (s : string) : fexpr =
     | _ -> raise Bad in
   let (f, j) = go 0 in if j <> n then raise Bad else f
 
-(* "<idx>/<filter>/<members>" *)
+(* record types: A = record with a tag attribute (id 0), B = record without one (id 1) *)
+let rec_id (c : char) : nat = match c with 'A' -> nat_of_int 0 | 'B' -> nat_of_int 1 | _ -> raise Bad
+(* "<idx>/<filter>/<members>/<record type>" *)
 let parse_logger (w : string) : logger =
   match String.split_on_char '/' w with
-  | [_; f; m] -> { lg_filter = parse_fexpr f; lg_sinks = nat_of_int (int_of_string m) }
+  | [_; f; m; r] when String.length r = 1 ->
+      { lg_rec = rec_id r.[0]; lg_tagged = (r = "A"); lg_filter = parse_fexpr f; lg_sinks = nat_of_int (int_of_string m) }
   | _ -> raise Bad
 
 let parse_tag (w : string) : str option = if w = "~" then None else Some (str_of_hex w)
@@ -69,7 +72,7 @@ let parse_item (w : string) : item =
 
 let parse_items (w : string) : item list = if w = "." then [] else List.map parse_item (String.split_on_char ',' w)
 
-type pword = POp of op | PKind of logger * sev
+type pword = POp of op | PKind of logger * sev | PGet of nat * nat
 
 let nslots = 4
 
@@ -77,7 +80,8 @@ let parse_word (o : string) : pword =
   let f = String.split_on_char ':' o in
   if o = "" then raise Bad else
   match o.[0], f with
-  | 'T', [_] when String.length o = 3 -> POp (OSet (nat_of_int (digit o.[1] 2), sev_of_int (digit o.[2] 6)))
+  | 'T', [_] when String.length o = 4 -> POp (OSet (rec_id o.[1], nat_of_int (digit o.[2] 2), sev_of_int (digit o.[3] 6)))
+  | 'G', [_] when String.length o = 3 -> PGet (rec_id o.[1], nat_of_int (digit o.[2] 2))
   | 'O', [_; lg; sv; tag; its] -> POp (OOne (parse_logger lg, sev_of_int (digit sv.[0] 6), parse_tag tag, parse_items its))
   | 'N', [h; lg; sv; tag] when String.length h = 2 -> POp (OOpen (nat_of_int (digit h.[1] nslots), parse_logger lg, sev_of_int (digit sv.[0] 6), parse_tag tag))
   | 'P', [h; it] when String.length h = 2 -> POp (OPut (nat_of_int (digit h.[1] nslots), parse_item it))
@@ -99,20 +103,23 @@ let tok_of_event = function
   | Fault -> "FAULT"
 
 (* run the program one word at a time, threading the world; `step` is exec_prog (model) or spec_prog (spec) *)
-let trace_with step init kind (w : string list) : string list =
+let trace_with step init kind thr (w : string list) : string list =
   let (mn, prog) = parse_case w in
   let cfg = { c_min = mn; c_fmt = harness_fmt } in
   let world = ref init and out = ref [] in
   List.iter (function
     | POp o -> let (w', ev) = step cfg !world [o] in world := w'; List.iter (fun e -> out := tok_of_event e :: !out) ev
-    | PKind (_, sv) -> out := ("K" ^ kind mn sv) :: !out) prog;
+    | PKind (_, sv) -> out := ("K" ^ kind mn sv) :: !out
+    | PGet (rc, k) -> out := ("G" ^ string_of_int (int_of_sev (thr !world rc k))) :: !out) prog;
   List.rev !out
 
-let model_tokens w = trace_with exec_prog init_world (fun mn sv -> match stream_kind mn sv with KSmart -> "1" | KNull -> "0") w
-let spec_tokens w = trace_with spec_prog init_sworld (fun mn sv -> if gate_open mn sv then "1" else "0") w
+let model_tokens w = trace_with exec_prog init_world (fun mn sv -> match stream_kind mn sv with KSmart -> "1" | KNull -> "0")
+                        (fun wd rc k -> min_severity wd.w_th rc k) w
+let spec_tokens w = trace_with spec_prog init_sworld (fun mn sv -> if gate_open mn sv then "1" else "0")
+                       (fun sw rc k -> min_severity sw.s_th rc k) w
 
 (* observation line: "-" when nothing happened, else "ev" followed by the event tokens *)
 let line_of_tokens = function [] -> "-" | l -> String.concat " " ("ev" :: l)
 let tokens_of_line (s : string) = match words s with ["-"] -> [] | "ev" :: l -> l | l -> "?" :: l
 
-let model (w : string list) : string = try line_of_tokens (model_tokens w) with Bad | Failure _ | Invalid_argument _ -> "BADCASE"
+let model (w : string list) : string = try line_of_tokens (model_tokens w) with Bad | Failure _ | Invalid_argument _ -> "BADCASE-MODEL" (* differs from the implementation's BADCASE on purpose: a malformed case must not pass silently *)
